@@ -5,8 +5,9 @@ import json, os, shutil, sys
 HERE = os.path.dirname(os.path.dirname(os.path.abspath(__file__)))
 name, pid, caught, by = sys.argv[1:5]
 note = sys.argv[5] if len(sys.argv) > 5 else ''
-src = '/tmp/seed/' + name
-dst = os.path.join(HERE, 'seeded', name)
+src = os.path.join(os.environ.get('SEEDROOT', '/tmp/seed'), name)
+store = name + os.environ.get('SEEDSUFFIX', '')
+dst = os.path.join(HERE, 'seeded', store)
 os.makedirs(dst, exist_ok=True)
 for f in ('patch.diff', 'demo.py'):
     shutil.copy(os.path.join(src, f), os.path.join(dst, f))
@@ -18,7 +19,7 @@ meta.update({'property': pid, 'caught': caught, 'caught_by': by, 'note': note,
 json.dump(meta, open(os.path.join(dst, 'meta.json'), 'w'), indent=1, ensure_ascii=False)
 ip = os.path.join(HERE, 'seeded', 'INDEX.json')
 idx = json.load(open(ip)) if os.path.exists(ip) else {}
-idx[name] = {'property': pid, 'summary': meta.get('summary', '')[:300], 'needs': meta.get('needs', '')[:300],
+idx[store] = {'property': pid, 'summary': meta.get('summary', '')[:300], 'needs': meta.get('needs', '')[:300],
              'caught': caught, 'caught_by': by, 'note': note}
 json.dump(idx, open(ip, 'w'), indent=1, ensure_ascii=False, sort_keys=True)
 print(name, caught)
